@@ -98,7 +98,7 @@ func idOf(line []byte) string {
 }
 
 func run(c *Ctx) {
-	c.Res.Rule = "programs of the C01 generator (default global settings, no trace marks), each tagged with a unique id field; payload classes: ordinary, > 500 bytes (pooled buffer grows), > 64 KiB (buffer not returned to the pool); first run alone (reference, model-checked), then every program `rounds` times from G in {2,4,16} goroutines through loggers derived from shared parents into one checksumming/delaying/blocking writer; programs a hook or the chain discards stay in the concurrent mix (must write nothing); plus SyncWriter over a non-reentrant writer and the global logger; SyncWriter closed while goroutines log (closers.go: a destination whose Write / WriteLevel / Close count the calls in progress and take time; 5 pipelines - over an io.Writer, over a LevelWriter, nested, closed through a MultiLevelWriter, over a ConsoleWriter - x 4 scripts - Close inside the destination before the loggers start, a Write inside the destination before Close and the other loggers start, two closers, free-running - x 1|4 logging goroutines: no overlapping calls, every event exactly once as run alone); plus directed sweeps (directed.go): a table of 28 call chains (13 leave per-event state on the pooled Event: stack flag, skip-frame count, context, hooks, Disabled level, grown / oversized buffer; 15 draw pooled events outside a Logger: prebuilt / nested Dict, scratch events of Fields / Errs / Array.Err / Array.Object / Context.Object, Dict().Caller(), GetCtx) under a configured ErrorStackMarshaler, every state-leaving chain run 1..2 times before every other chain on emptied pools (sequential histories) and the whole table from 4 and 16 goroutines, each line compared with the chain alone on emptied pools; scripted schedules under GOMAXPROCS(1): goroutine A parked inside a hook of its event (9 hook orders over discard / add-field / park) while goroutine B completes 1..2 events, or starts an event before and finishes it after A resumes (12 modes); 60 generated programs under Settings with a stack marshaler (a third with Stack().Err, a third with errors inside Dict / Fields / Array) run alone on emptied pools, sequentially with history and from 8 goroutines; faults on the way to the destination (faults.go): 5 pipelines (Logger, SyncWriter, ConsoleWriter plain / with FormatPrepare+FormatFieldValue+FormatExtra, SyncWriter over that) x one event that meets a fault (the destination answers (0,err) / (n/2,err) / (n/2,nil) / (0,nil) / (n,err); a formatter fails before / after rendering or panics and is recovered) after 0 / 2 warm events, followed by two events through the same pipeline and one through a second pipeline sharing only the package pools, every Write compared with the event alone on emptied pools; the same pipelines from 6 goroutines into a destination refusing every 4th call; children of one shared parent derived with a hook inside the goroutine that uses them (hookkids.go: 11 parents - 0..7 hooks added one call at a time, three in one call, a With().Timestamp() hook, an Output copy - x 6 derivations - Hook / With().Logger().Hook / Level().Hook / Hook(h,h2) / With().Timestamp().Logger().Hook / Hook().Hook - x 6 goroutines, all children made before the first logs; every line as the chain run alone); a BasicSampler{1,2,3,5} shared by a logger, a child and a copy from 8 goroutines (one intact Write per admitted event); race detector on. Non-trivial = program with nesting (Dict/Array/Object/hooks) or a grown buffer"
+	c.Res.Rule = "programs of the C01 generator (default global settings, no trace marks), each tagged with a unique id field; payload classes: ordinary, > 500 bytes (pooled buffer grows), > 64 KiB (buffer not returned to the pool); first run alone (reference, model-checked), then every program `rounds` times from G in {2,4,16} goroutines through loggers derived from shared parents into one checksumming/delaying/blocking writer; programs a hook or the chain discards stay in the concurrent mix (must write nothing); three of four runs are preceded by the same chain on a FILTERED twin of the logger (Level(Disabled) / a sampler that admits nothing / Nop()), which is handed the same pooled arguments and must write nothing; plus SyncWriter over a non-reentrant writer and the global logger; SyncWriter closed while goroutines log (closers.go: a destination whose Write / WriteLevel / Close count the calls in progress and take time; 5 pipelines - over an io.Writer, over a LevelWriter, nested, closed through a MultiLevelWriter, over a ConsoleWriter - x 4 scripts - Close inside the destination before the loggers start, a Write inside the destination before Close and the other loggers start, two closers, free-running - x 1|4 logging goroutines: no overlapping calls, every event exactly once as run alone); plus directed sweeps (directed.go): a table of 58 call chains (13 leave per-event state on the pooled Event: stack flag, skip-frame count, context, hooks, Disabled level, grown / oversized buffer; 24 hand pooled arguments - Arr(), Dict(), arrays of pooled Dict / Object / Err, array and object marshalers, Errs, Fields, grown arrays - to a FILTERED event: logger level, Disabled level, a sampler that admits nothing, the Nop logger, a nil writer, after Discard(), a child below its parent's level; 21 draw pooled events / arrays outside a Logger: prebuilt / nested Dict, scratch events of Fields / Errs / Array.Err / Array.Object / Context.Object, Dict().Caller(), GetCtx, Arr() plain / empty / held across a yield / through a LogArrayMarshaler / in a context / inside an object) under a configured ErrorStackMarshaler, every state-leaving chain run 1..2 times before every other chain on emptied pools (sequential histories) and the whole table from 4 and 16 goroutines, each line compared with the chain alone on emptied pools; scripted schedules under GOMAXPROCS(1): goroutine A parked inside a hook of its event (9 hook orders over discard / add-field / park) while goroutine B completes 1..2 events, or starts an event before and finishes it after A resumes (12 modes); 60 generated programs under Settings with a stack marshaler (a third with Stack().Err, a third with errors inside Dict / Fields / Array) run alone on emptied pools, sequentially with history and from 8 goroutines; faults on the way to the destination (faults.go): 5 pipelines (Logger, SyncWriter, ConsoleWriter plain / with FormatPrepare+FormatFieldValue+FormatExtra, SyncWriter over that) x one event that meets a fault (the destination answers (0,err) / (n/2,err) / (n/2,nil) / (0,nil) / (n,err); a formatter fails before / after rendering or panics and is recovered) after 0 / 2 warm events, followed by two events through the same pipeline and one through a second pipeline sharing only the package pools, every Write compared with the event alone on emptied pools; the same pipelines from 6 goroutines into a destination refusing every 4th call (both watched: a logging call that does not come back for 5 s is a lost event); a destination behind SyncWriter that panics and a caller that recovers (panics.go: 7 pipelines - SyncWriter over an io.Writer / a LevelWriter, nested, behind and around a MultiLevelWriter, around a ConsoleWriter, around a ConsoleWriter whose formatter panics on a poisoned event - x 5 schedules - the 1st / 3rd / 2nd and 5th Write or WriteLevel of the destination panics, its Close panics before or while the loggers log - x 1|4 goroutines x 6 events, every call under recover(): every goroutine finishes (no progress for 5 s = violation; at most 2 scenarios of a run may hang), no overlapping calls, the destination is handed every event exactly once as logged alone); children of one shared parent derived with a hook inside the goroutine that uses them (hookkids.go: 11 parents - 0..7 hooks added one call at a time, three in one call, a With().Timestamp() hook, an Output copy - x 6 derivations - Hook / With().Logger().Hook / Level().Hook / Hook(h,h2) / With().Timestamp().Logger().Hook / Hook().Hook - x 6 goroutines, all children made before the first logs; every line as the chain run alone); a BasicSampler{1,2,3,5} shared by a logger, a child and a copy from 8 goroutines (one intact Write per admitted event); race detector on. Non-trivial = program with nesting (Dict/Array/Object/hooks) or a grown buffer"
 	c.OpenShards("From Verif Require Import Base.Prelude Base.Decimal Enc.JsonEnc Misc.Level Api.Exec Harness.C01H Harness.C06H.", "c01_case * option bytes", "mismatches c06_run c06_eqb", 30)
 	nprog := 120
 	rounds := 3
@@ -263,7 +263,7 @@ func run(c *Ctx) {
 							if (i+r)%3 == 0 {
 								l = l.With().Logger() // derive a child inside the goroutine as well
 							}
-							func() {
+							emit := func(l zerolog.Logger) {
 								defer func() {
 									if r := recover(); r != nil {
 										atomic.AddInt64(&panics, 1)
@@ -277,7 +277,24 @@ func run(c *Ctx) {
 								e := l.WithLevel(zerolog.Level(cs.Level))
 								progs.ApplyEvent(e, cs.Ops)
 								e.Msg(string(cs.Msg))
-							}()
+							}
+							// the same chain on a FILTERED twin of the logger first (level above every event's / a sampler
+							// that admits nothing / the Nop logger): it is handed the same pooled arguments (Arr(), Dict(),
+							// marshalers), must write nothing, and what it gives back to the pools must not show in any
+							// other goroutine's event
+							mode := (idx + r + g) % 4
+							if mode == 0 && zerolog.Level(cs.Level) >= zerolog.Disabled {
+								mode = 1 // a level beyond Disabled passes Level(Disabled): not a filtered event
+							}
+							switch mode {
+							case 0:
+								emit(l.Level(zerolog.Disabled))
+							case 1:
+								emit(l.Sample(rejectSampler{}))
+							case 2:
+								emit(zerolog.Nop())
+							}
+							emit(l)
 						}
 					}
 				}(g)
@@ -330,6 +347,7 @@ func run(c *Ctx) {
 	// the directed sweeps run first: their witnesses (a two-chain history, a scripted schedule) are the easiest to read
 	scriptedHookInterleavings(c)
 	directedHistories(c)
+	syncWriterPanics(c)
 	faultHistories(c)
 	faultConcurrent(c)
 	sampledLoggers(c)
@@ -524,7 +542,11 @@ func run(c *Ctx) {
 				if len(b) > 3000 {
 					b = b[:3000]
 				}
-				c.Violate(Violation{Key: "data-race", Monitor: "go-race-detector", Desc: "the race detector reported a data race while goroutines logged concurrently", Case: string(b)})
+				desc := "the race detector reported a data race while goroutines logged concurrently"
+				if n := atomic.LoadInt32(&hungScenarios); n > 0 {
+					desc += fmt.Sprintf(" (note: %d panic scenario(s) of this run hung, reported separately, and left goroutines blocked inside a logging call; a report whose write is the harness emptying the pools - VerifC06FreshPools - against a read of one of those goroutines is a consequence of that)", n)
+				}
+				c.Violate(Violation{Key: "data-race", Monitor: "go-race-detector", Desc: desc, Case: string(b)})
 				break
 			}
 		}
